@@ -38,3 +38,4 @@ CFG = {'level': 'exploration',
  'assumptions': ['ref/refzip transcribes the documented rules correctly (go version of the root go.mod is an annotation of the generated text)',
                  'strings.EqualFold of the standard library is Unicode simple case folding',
                  'the sandbox file system is case-sensitive and accepts arbitrary names']}
+CFG['level_text'] += ' A third of the root go.mod files come from the go.mod generator (non-ASCII comments, comment blocks glued to directives, CRLF, blocks, unknown directives) and the fixed list includes spellings only the lenient reader accepts (v1.24.0, 1.24.x, 1.25-custom).'
